@@ -561,12 +561,30 @@ func (s *Stream) handleDataFrame(f Frame) error {
 	}
 
 	if f.Opcode().IsText() && s.validateUTF8 {
-		if !utf8.Valid(f.Payload()) {
+		if !validUTF8Fragment(f.Payload(), f.IsFIN()) {
 			return ErrInvalidUTF8
 		}
 	}
 
 	return nil
+}
+
+// validUTF8Fragment reports whether b can be the payload of a text frame. It is the message that is UTF-8, not each of
+// its fragments (RFC 6455 5.6), so a frame that is not the last one of its message may end inside a multi-byte
+// sequence: only the bytes before such an incomplete trailing sequence are validated.
+func validUTF8Fragment(b []byte, fin bool) bool {
+	if utf8.Valid(b) {
+		return true
+	}
+	if fin {
+		return false
+	}
+	for i := 1; i < utf8.UTFMax && i <= len(b); i++ {
+		if utf8.RuneStart(b[len(b)-i]) {
+			return !utf8.FullRune(b[len(b)-i:]) && utf8.Valid(b[:len(b)-i])
+		}
+	}
+	return false
 }
 
 // Write writes the supplied buffer as a single message with the given type to the underlying stream.
